@@ -68,8 +68,12 @@ class History:
             self.nodes[node['id']] = NodeH(node, parent)
             self.parents[node['id']] = parent
         self.seq_returned = run.seq_returned
+        # a re-run case: only the second run is looked at
+        self.rerun = getattr(run, 'seq_rerun', None)
         for seq, t, kind, nid, payload in self.events:
             if kind == 'mark':
+                continue
+            if self.rerun is not None and seq <= self.rerun:
                 continue
             h = self.nodes[nid]
             if kind in ('enter', 'run_begin'):
